@@ -79,6 +79,10 @@ def run_case(ctx, shape, recursive, linear):
             return False     # infinite / divergent: outside the property's precondition
     except OverflowError:
         return False
+    CAP = 2.0 ** 39
+    if any((not isinstance(d, float)) and abs(float(d)) >= CAP for e in entries for d in model[e]):
+        ctx.count('model-derivative-saturated-skipped')   # the model's iterates hit its saturation bound (Sem.capDown)
+        return False
     if recursive:
         # convergence check of the model itself: one more batch of steps must not move the derivative
         rep2 = ctx.driver.ask(f'C03.dual {gen.enc_shape(shape)} {enc_list(entries, lambda e: f"{e[0]} {e[1]}")} {nsteps // 2} {bits}')
